@@ -757,7 +757,102 @@ class RuleModeCM(SymbolicModeCM):
     cm_name = 'rule_mode'
 
 
-CONTRACTS += [SymbolicModeCM, RuleModeCM]
+class ExprEnter(StackMixin, ModeMixin, LibModel):
+    """SymbolicExpression.__enter__ (`with <expression>:`): exactly one node is pushed on the expression-context stack and
+    the expression itself is returned (C08; C12: the attachment point of rules)"""
+    qual = 'symbolic:SymbolicExpression.__enter__'
+    cls = 'SymbolicExpression'
+    props = ('C08', 'C12')
+    modes = ('sound',)
+
+    def modenv(self):
+        env = super().modenv()
+        env['EQLMode'] = C(Ref('module', 'EQLMode'))
+        return env
+
+    def setup(self, eng):
+        sts = []
+        for flag in (False, True):
+            st = State()
+            st.fields = init_fields()
+            n = z3.Const('self', Z.Node)
+            st.ghost['self'] = n
+            st.locals['self'] = ZV(n, 'node')
+            st.locals['in_rule_mode'] = C(flag)
+            m0 = z3.Const('mode_at_entry', Mode)
+            s0 = z3.Const('stack_at_entry', NodeSeq)
+            st.ghost.update({'mode': m0, 'mode0': m0, 'stack': s0, 'stack0': s0})
+            st.assume(MODE_DISTINCT, n != Z.NoneNode)
+            st.path.append(f"in_rule_mode={flag}")
+            sts.append(st)
+        return sts
+
+    def getattr(self, eng, st, recv, name):
+        if isinstance(recv, ZV) and recv.ty in ('node', 'optnode') and name in ('_root_', '_conditions_root_', '_parent_'):
+            return [(st, ZV(z3.Function(name.strip('_') + '_of', Z.Node, Z.Node)(recv.t), 'node'))]
+        return super().getattr(eng, st, recv, name)
+
+    def on_exit(self, eng, o):
+        st = o.st
+        if o.sig != RETURN:
+            eng.oblige(st, "C08/enter/returns", z3.BoolVal(False))
+            return
+        s0, s1 = st.ghost['stack0'], st.ghost['stack']
+        eng.oblige(st, "C08/enter/pushes-exactly-one-node", z3.And(z3.Length(s1) == z3.Length(s0) + 1, z3.PrefixOf(s0, s1)))
+        eng.oblige(st, "C08/enter/returns-the-expression-itself", z3.BoolVal(isinstance(o.val, ZV)) if not isinstance(o.val, ZV)
+                   else o.val.t == st.ghost['self'])
+        eng.oblige(st, "C08/enter/mode-untouched", st.ghost['mode'] == st.ghost['mode0'])
+
+    def signature(self, ob, model):
+        return {}
+
+
+class ExprExit(StackMixin, ModeMixin, LibModel):
+    """SymbolicExpression.__exit__(exc_type, exc, tb): the entry pushed by __enter__ is popped however the block was left
+    (with or without an exception); the exception is not swallowed"""
+    qual = 'symbolic:SymbolicExpression.__exit__'
+    cls = 'SymbolicExpression'
+    props = ('C08', 'C12')
+    modes = ('sound',)
+
+    def setup(self, eng):
+        sts = []
+        fd = eng.fdef
+        for exc in (False, True):
+            st = State()
+            st.fields = init_fields()
+            n = z3.Const('self', Z.Node)
+            st.ghost['self'] = n
+            st.locals['self'] = ZV(n, 'node')
+            triple = [C(Ref('exc', 'SomeError')), Obj('excvalue', {}), Obj('traceback', {})] if exc else [NONE, NONE, NONE]
+            if fd.args.vararg is not None:
+                st.locals[fd.args.vararg.arg] = Tup(list(triple))
+            for a, v in zip([a.arg for a in fd.args.args][1:], triple):
+                st.locals[a] = v
+            m0 = z3.Const('mode_at_entry', Mode)
+            s0 = z3.Const('stack_at_entry', NodeSeq)
+            st.ghost.update({'mode': m0, 'mode0': m0, 'stack': s0, 'stack0': s0, 'exc': exc})
+            st.assume(MODE_DISTINCT, z3.Length(s0) > 0)       # __enter__ pushed one entry (its contract)
+            st.path.append(f"left-by-exception={exc}")
+            sts.append(st)
+        return sts
+
+    def on_exit(self, eng, o):
+        st = o.st
+        if o.sig not in (RETURN, NEXT):
+            eng.oblige(st, "C08/exit/returns", z3.BoolVal(False))
+            return
+        s0, s1 = st.ghost['stack0'], st.ghost['stack']
+        eng.oblige(st, "C08/exit/pops-exactly-the-entry-pushed-on-entry", s1 == z3.Extract(s0, 0, z3.Length(s0) - 1))
+        eng.oblige(st, "C08/exit/mode-untouched", st.ghost['mode'] == st.ghost['mode0'])
+        swallowed = eng.truth(st, o.val) if o.sig == RETURN and o.val is not None else False
+        eng.oblige(st, "C08/exit/does-not-swallow-the-exception", z3.Not(eng.to_z3_bool(swallowed)))
+
+    def signature(self, ob, model):
+        return {}
+
+
+CONTRACTS += [SymbolicModeCM, RuleModeCM, ExprEnter, ExprExit]
 
 
 Qsub = z3.Function('Qsub', Z.Node, z3.ArraySort(Z.Node, Z.B), Z.B)     # whole subtree quiescent (given the `quiet` array)
